@@ -42,7 +42,13 @@ def main():
             chart = Chart.from_file(io.StringIO(texts[ti]), want_tracks=sel_pairs(sel))
         except Exception as e:  # noqa: BLE001
             return {"ok": False, "exc": [type(e).__name__, str(e)]}, None
-        return {"ok": True, "obs": observation(chart)}, chart
+        # besides the (order-insensitive) observation: what iteration and rendering expose.  Which order
+        # a mapping iterates in is not promised, but it must be a function of the text and selection --
+        # not of the process (hash salt), the history or the schedule.
+        order = [[i.name, [d.name for d in inner]] for i, inner in chart.instrument_tracks.items()]
+        rendered = [str(chart), repr(chart)]
+        return {"ok": True, "obs": observation(chart), "order": order,
+                "rendered": [len(rendered[0]), len(rendered[1]), rendered[0][:4000], rendered[1][:4000]]}, chart
 
     def finish(res, chart, ti, sel):
         key = json.dumps([ti, sel])
